@@ -48,8 +48,20 @@ def _kw(ev, name, pos=None):
     return None
 
 
+VAL = "_value"   # re-discovered from the 'value' getter of Element by _init (never assumed)
+VEC = "_vector"
+
+
+def _init(p):
+    global VAL, VEC
+    from .common import backing_field
+    VAL = backing_field(p, ELEMENT_MOD + ".Element", "value")
+    VEC = backing_field(p, ELEMENT_MOD + ".Element", "vector")
+
+
 def rule_write(ctx):
     p = ctx.p
+    _init(p)
     base, classes = element_classes(p)
     ctx.floor("C14.WRITE", "element classes", len(classes), 5)
     for ci in classes:
@@ -116,6 +128,7 @@ def rule_write(ctx):
 
 def rule_setter(ctx):
     p = ctx.p
+    _init(p)
     base, classes = element_classes(p)
     for ci in classes:
         f = ci.find_setter("value")
@@ -129,9 +142,9 @@ def rule_setter(ctx):
         for pa in paths:
             if pa.outcome != "return":
                 continue
-            st = [e for e in pa.events if e.kind == "store" and e.data.get("attr") == "_value" and show(e.data["base"]) == "self"]
+            st = [e for e in pa.events if e.kind == "store" and e.data.get("attr") == VAL and show(e.data["base"]) == "self"]
             if len(st) != 1:
-                ctx.violated("C14.SETTER", inst, f"_value is stored {len(st)} times on a path", fi=f, text=f"store-count:{len(st)}")
+                ctx.violated("C14.SETTER", inst, f"the value field is stored {len(st)} times on a path", fi=f, text=f"store-count:{len(st)}")
                 bad = True
                 continue
             s = st[0]
@@ -144,9 +157,9 @@ def rule_setter(ctx):
                 ctx.violated("C14.SETTER", inst, "the value's type is not checked before the store", fi=f, text="type-check")
                 bad = True
             sends = pa.calls(method="send_message")
-            good_sends = [e for e in sends if e.data["args"] and isinstance(e.data["args"][0], Term) and is_call(e.data["args"][0], method="to_set_message") and show(e.data["args"][0]) == "self._vector.to_set_message()"]
+            good_sends = [e for e in sends if e.data["args"] and isinstance(e.data["args"][0], Term) and is_call(e.data["args"][0], method="to_set_message") and show(e.data["args"][0]) in (f"self.{VEC}.to_set_message()", "self.vector.to_set_message()")]
             if len(sends) != 1 or len(good_sends) != 1 or sends[0].idx < s.idx:
-                ctx.violated("C14.SETTER", inst, f"expected exactly one publication of self._vector.to_set_message() after the store, found {[show(e.data['term'])[:70] for e in sends]}", fi=f, text="publication")
+                ctx.violated("C14.SETTER", inst, f"expected exactly one publication of the own vector's to_set_message() after the store, found {[show(e.data['term'])[:70] for e in sends]}", fi=f, text="publication")
                 bad = True
             elif any(c.idx < s.idx for c in pa.calls(method="to_set_message")):
                 ctx.violated("C14.SETTER", inst, "the update message is rendered before the store (it would carry the old value)", fi=f, text="render-before-store")
@@ -159,7 +172,7 @@ def rule_setter(ctx):
                 c = e.data["cond"]
                 a, b = c.args[1], c.args[2]
                 sides = (a, b)
-                has_prev = any(show(x) == "self._value" for x in sides)
+                has_prev = any(show(x) == f"self.{VAL}" for x in sides)
                 has_new = any(x is stored for x in sides)
                 if has_prev and has_new:
                     dec = e.data["truth"] if c.args[0] == "!=" else not e.data["truth"]
@@ -175,7 +188,7 @@ def rule_setter(ctx):
                     continue
                 ch = changes[0]
                 ov, nv = _kw(ch, "old_value", 1), _kw(ch, "new_value", 2)
-                if ov is None or show(ov) != "self._value" or nv is not stored:
+                if ov is None or show(ov) != f"self.{VAL}" or nv is not stored:
                     ctx.violated("C14.SETTER", inst, f"Change carries ({show(ov) if ov else None}, {show(nv)[:40] if nv else None}) instead of (previous value, stored value)", fi=f, text="change-args")
                     bad = True
                 if not (craises[0].data["args"] and craises[0].data["args"][0] is ch.data["term"]) or craises[0].idx < s.idx:
@@ -198,6 +211,7 @@ def rule_setter(ctx):
 
 def rule_nowrite(ctx):
     p = ctx.p
+    _init(p)
     wcls = p.cls("indi.device.events.Write")
     sites = []
     for fi in p.functions:
@@ -217,7 +231,7 @@ def rule_nowrite(ctx):
             return (fi.cls is not None and (fi.cls in ci.mro) and fi.name in ("check_value", "check_value_type")) or (fi.cls is sv and fi.name == "apply_rule")
 
         def hints(c, attr):
-            if attr == "_vector" and ci.name == "Switch":
+            if attr == VEC and ci.name == "Switch":
                 return sv
             return None
 
@@ -229,6 +243,7 @@ def rule_nowrite(ctx):
 
 def rule_read(ctx):
     p = ctx.p
+    _init(p)
     base, classes = element_classes(p)
     g = base.find_getter("value")
     paths = run_method(p, g)
@@ -237,7 +252,7 @@ def rule_read(ctx):
         reads = [e for e in pa.events if _new_of(e, "Read")]
         rs = pa.calls(method="raise_event")
         ret = [e for e in pa.events if e.kind == "return"]
-        if pa.outcome != "return" or len(reads) != 1 or len(rs) != 1 or not (rs[0].data["args"] and rs[0].data["args"][0] is reads[0].data["term"]) or show(pa.value) != "self._value":
+        if pa.outcome != "return" or len(reads) != 1 or len(rs) != 1 or not (rs[0].data["args"] and rs[0].data["args"][0] is reads[0].data["term"]) or show(pa.value) != f"self.{VAL}":
             ok = False
         el = _kw(reads[0], "element", 0) if reads else None
         if el is None or show(el) != "self":
@@ -258,7 +273,7 @@ def rule_read(ctx):
                 if pa.outcome != "return":
                     continue
                 v = pa.value
-                raw = mentions(v, lambda t: isinstance(t, Term) and t.op == "attr" and t.args[1] == "_value")
+                raw = mentions(v, lambda t: isinstance(t, Term) and t.op == "attr" and t.args[1] == VAL)
                 if raw:
                     ctx.violated("C14.READ", inst, "the emitted part reads _value directly: Read handlers cannot refresh it before publication", fi=f, text="raw-read")
                     bad = True
@@ -275,6 +290,7 @@ def rule_read(ctx):
 
 def rule_dispatch(ctx):
     p = ctx.p
+    _init(p)
     es = p.cls("indi.device.events.EventSource")
     f = es.find_method("raise_event")
     paths = run_method(p, f, opts={"max_for": 2})
@@ -327,6 +343,7 @@ def rule_dispatch(ctx):
 
 def rule_msg(ctx):
     p = ctx.p
+    _init(p)
     base, classes = element_classes(p)
     n = 0
     for ci in classes:
@@ -349,6 +366,7 @@ def rule_msg(ctx):
 
 def rule_attach(ctx):
     p = ctx.p
+    _init(p)
     drv = p.cls("indi.device.driver.Driver")
     init = drv.methods["__init__"]
     calls = [n for n in walk_no_nested(init.node) if isinstance(n, ast.Call) and isinstance(n.func, ast.Name) and n.func.id == "attach_event_handlers"]
